@@ -11,6 +11,7 @@ find props -type d -name gen2 | while read -r d; do
     sed -e 's#github.com/PapaCharlie/go-restli/v2/restlidata/generated/com/linkedin/restli/common#github.com/PapaCharlie/go-restli/restlidata#g' \
         -e 's#github.com/PapaCharlie/go-restli/v2/#github.com/PapaCharlie/go-restli/#g' \
         -e 's#^package gen2#package gen1#' \
+        -e 's#"verifh/props/\([a-z0-9]*\)/gen2"#"verifh/props/\1/gen1"#' \
         -e 's#[A-Za-z0-9_.]* /\*root:\([^*]*\)\*/#\1#g' \
         -e 's#GENERATION = "v2"#GENERATION = "root"#' "$f" > "$o/$(basename "$f")"
   done
